@@ -51,6 +51,41 @@ func main() {
 			}
 			fmt.Printf("%-9s %-60s %d sites\n", has, n, len(sites[n]))
 		}
+	case "uncovered":
+		// module functions that have no contract, or a contract that no
+		// property is bound to (a map of what a change could touch unseen)
+		v, err := LoadVerifier("/repo", "/verif/deps")
+		if err != nil {
+			panic(err)
+		}
+		under := map[*ssa.Function]*FuncContract{}
+		for _, fc := range v.cs.Funcs {
+			if fc.Assumed {
+				continue
+			}
+			if fn := v.findFunc(fc.Pkg, fc.Name); fn != nil {
+				under[fn] = fc
+			}
+		}
+		bound := map[string]bool{}
+		for _, names := range v.cs.Props {
+			for _, n := range names {
+				bound[n] = true
+			}
+		}
+		for _, fn := range v.moduleFuncs() {
+			n := 0
+			for _, b := range fn.Blocks {
+				n += len(b.Instrs)
+			}
+			fc := under[fn]
+			switch {
+			case fc == nil:
+				fmt.Printf("no-contract  %4d instrs  %s\n", n, fn.String())
+			case !bound[fc.Pkg+"::"+fc.Name]:
+				fmt.Printf("unbound      %4d instrs  %s\n", n, fn.String())
+			}
+		}
 	case "check":
 		os.Exit(checkMain(os.Args[2:]))
 	default:
